@@ -187,7 +187,7 @@ func (g *genCtx) newPattern(forceGroups bool) *Pattern {
 	}
 	var lits []string
 	if g.o.Fmt && r.Intn(4) == 0 {
-		re.WriteString(ev.PickOne(r, []string{`(?:x\/y)?`, `(?:x\/y)?`, `(?:x\\\/y)?`, `(?:\\\/)?`}))
+		re.WriteString(ev.PickOne(r, []string{`(?:x\/y)?`, `(?:x\/y)?`, `(?:x\\\/y)?`, `(?:\\\/)?`, `(?:température)?`, `(?:°\/é)?`}))
 	}
 	for k := 0; k < n && i < len(fields); k++ {
 		f := fields[i]
@@ -594,7 +594,7 @@ var strLits = []string{"", "x", "foo", "Foo", "BAR", "12", "-5", "1.5", "ff", "a
 
 func (g *genCtx) strLeaf() Expr {
 	if g.o.Fmt && g.r.Intn(4) == 0 {
-		return &StrLit{ev.PickOne(g.r, []string{`a\"b`, `c\\d`, `\"`, `say \"hi\" \\o/`, `tab\there`, `dir\\\" next`, `\\\"`, `ends\\`, `\\\\\"q`})}
+		return &StrLit{ev.PickOne(g.r, []string{`a\"b`, `c\\d`, `\"`, `say \"hi\" \\o/`, `tab\there`, `dir\\\" next`, `\\\"`, `ends\\`, `\\\\\"q`, `café °C`, `naïve \"x\" ✓`})}
 	}
 	cs := g.capsOf(TString)
 	switch k := g.r.Intn(10); {
